@@ -49,6 +49,7 @@ type Op struct {
 	Kind    string  `json:"kind,omitempty"`
 	Outcome string  `json:"outcome,omitempty"`
 	Which   string  `json:"which,omitempty"`
+	B       string  `json:"b,omitempty"`
 }
 
 type Schedule struct {
@@ -104,6 +105,7 @@ type journey struct {
 
 	leaseID string
 	msgID   string
+	ncomp   int
 }
 
 var reSafe = regexp.MustCompile(`[^A-Za-z0-9]+`)
@@ -134,7 +136,7 @@ func (r *Runner) Run(s Schedule) error {
 		case "Requeue":
 			err = j.requeue(op)
 		case "Push":
-			err = j.push(op.Outcome, "push")
+			err = j.push(op.Outcome, "push", op.B)
 		case "Restart":
 			err = j.restart()
 		case "List":
@@ -288,15 +290,24 @@ func (j *journey) boot() error {
 			j.x.gate = j.g
 			j.x.mu.Unlock()
 		}
-		j.g.open.Store(false)
+		j.g.Close()
+		limits := pick(j.r.Seed, j.jid, "limits", 2) == 0
 		switch j.in.Be {
 		case "memory":
 			if j.mem == nil {
-				j.mem = queue.NewMemoryStore(queue.WithDeliveredRetention(time.Hour))
+				if limits {
+					j.mem = queue.NewMemoryStore(queue.WithDeliveredRetention(time.Hour), queue.WithQueueLimits(10000, "reject"))
+				} else {
+					j.mem = queue.NewMemoryStore(queue.WithDeliveredRetention(time.Hour))
+				}
 			}
 			opts.Store = memGated{MemoryStore: j.mem, g: j.g}
 		case "sqlite":
-			s, err := queue.NewSQLiteStore(j.dbPath, queue.WithSQLiteDeliveredRetention(time.Hour))
+			sopts := []queue.SQLiteOption{queue.WithSQLiteDeliveredRetention(time.Hour)}
+			if limits {
+				sopts = append(sopts, queue.WithSQLiteQueueLimits(10000, "reject"))
+			}
+			s, err := queue.NewSQLiteStore(j.dbPath, sopts...)
 			if err != nil {
 				return err
 			}
@@ -376,6 +387,9 @@ func (j *journey) dump() (rows []row, other int, err error) {
 		e := vr.Env
 		if e.Route != "/in" {
 			other++
+			continue
+		}
+		if strings.HasPrefix(e.ID, compPrefix) {
 			continue
 		}
 		h := HeaderList(e.Headers)
@@ -556,10 +570,8 @@ func (j *journey) pullHTTP(op string, body string) (int, []byte) {
 	return rec.Code, rec.Body.Bytes()
 }
 
-type deqResult struct {
-	err     string
+type deqItem struct {
 	enc     string
-	n       int
 	payload []byte
 	headers map[string]string
 	lease   string
@@ -568,11 +580,27 @@ type deqResult struct {
 	raw     *workerapipb.DequeueItem
 }
 
-func (j *journey) deqOnce(ch string, ttl time.Duration) (deqResult, error) {
+type deqResult struct {
+	err   string
+	items []deqItem
+}
+
+func decodeB64(s *string) ([]byte, string) {
+	if s == nil {
+		return nil, "payload_b64 missing"
+	}
+	p, err := base64.StdEncoding.DecodeString(*s)
+	if err != nil {
+		return []byte(*s), "payload_b64 is not standard base64"
+	}
+	return p, ""
+}
+
+func (j *journey) deqOnce(ch string, ttl time.Duration, batch int) (deqResult, error) {
 	var d deqResult
 	switch ch {
 	case "http":
-		code, body := j.pullHTTP("dequeue", fmt.Sprintf(`{"batch":1,"lease_ttl":"%s"}`, ttl))
+		code, body := j.pullHTTP("dequeue", fmt.Sprintf(`{"batch":%d,"lease_ttl":"%s"}`, batch, ttl))
 		if code != 200 {
 			d.err = fmt.Sprintf("status %d", code)
 			return d, nil
@@ -590,18 +618,9 @@ func (j *journey) deqOnce(ch string, ttl time.Duration) (deqResult, error) {
 			d.err = "response is not JSON: " + err.Error()
 			return d, nil
 		}
-		d.n = len(out.Items)
-		if d.n > 0 {
-			it := out.Items[0]
-			d.id, d.lease, d.attempt, d.headers = it.ID, it.LeaseID, it.Attempt, it.Headers
-			if it.PayloadB64 == nil {
-				d.err = "payload_b64 missing"
-			} else if p, err := base64.StdEncoding.DecodeString(*it.PayloadB64); err != nil {
-				d.enc = "payload_b64 is not standard base64"
-				d.payload = []byte(*it.PayloadB64)
-			} else {
-				d.payload = p
-			}
+		for _, it := range out.Items {
+			p, enc := decodeB64(it.PayloadB64)
+			d.items = append(d.items, deqItem{id: it.ID, lease: it.LeaseID, attempt: it.Attempt, headers: it.Headers, payload: p, enc: enc})
 		}
 	case "grpc":
 		cl, err := j.grpcClient()
@@ -609,34 +628,29 @@ func (j *journey) deqOnce(ch string, ttl time.Duration) (deqResult, error) {
 			return d, err
 		}
 		ctx, cancel := grpcCtx()
-		resp, err := cl.Dequeue(ctx, &workerapipb.DequeueRequest{Endpoint: "/pull/in", Batch: 1, LeaseTtl: durationpb.New(ttl)})
+		resp, err := cl.Dequeue(ctx, &workerapipb.DequeueRequest{Endpoint: "/pull/in", Batch: uint32(batch), LeaseTtl: durationpb.New(ttl)})
 		cancel()
 		if err != nil {
 			d.err = "grpc: " + err.Error()
 			return d, nil
 		}
-		d.n = len(resp.GetItems())
-		if d.n > 0 {
-			it := resp.GetItems()[0]
-			d.id, d.lease, d.attempt, d.headers, d.payload = it.GetId(), it.GetLeaseId(), int(it.GetAttempt()), it.GetHeaders(), it.GetPayload()
+		for _, it := range resp.GetItems() {
+			d.items = append(d.items, deqItem{id: it.GetId(), lease: it.GetLeaseId(), attempt: int(it.GetAttempt()), headers: it.GetHeaders(), payload: it.GetPayload()})
 		}
 	case "inproc":
 		ctx := metadata.NewIncomingContext(context.Background(), metadata.Pairs("authorization", "Bearer "+pullToken))
-		resp, err := j.inst.Worker.Dequeue(ctx, &workerapipb.DequeueRequest{Endpoint: "/pull/in", Batch: 1, LeaseTtl: durationpb.New(ttl)})
+		resp, err := j.inst.Worker.Dequeue(ctx, &workerapipb.DequeueRequest{Endpoint: "/pull/in", Batch: uint32(batch), LeaseTtl: durationpb.New(ttl)})
 		if err != nil {
 			d.err = "inproc: " + err.Error()
 			return d, nil
 		}
-		d.n = len(resp.GetItems())
-		if d.n > 0 {
-			it := resp.GetItems()[0]
-			d.raw = it
-			d.id, d.lease, d.attempt = it.GetId(), it.GetLeaseId(), int(it.GetAttempt())
-			d.payload = append([]byte(nil), it.GetPayload()...)
-			d.headers = map[string]string{}
+		for _, it := range resp.GetItems() {
+			h := map[string]string{}
 			for k, v := range it.GetHeaders() {
-				d.headers[k] = v
+				h[k] = v
 			}
+			d.items = append(d.items, deqItem{id: it.GetId(), lease: it.GetLeaseId(), attempt: int(it.GetAttempt()), headers: h,
+				payload: append([]byte(nil), it.GetPayload()...), raw: it})
 		}
 	default:
 		return d, fmt.Errorf("unknown channel %q", ch)
@@ -644,10 +658,91 @@ func (j *journey) deqOnce(ch string, ttl time.Duration) (deqResult, error) {
 	return d, nil
 }
 
+// scribble overwrites everything a consumer of the in-process worker API was handed.
+func scribble(it *workerapipb.DequeueItem) {
+	p := it.Payload
+	for i := range p {
+		p[i] ^= 0xff
+	}
+	if cap(p) > len(p) {
+		p = p[:cap(p)]
+		for i := range p {
+			p[i] = 'X'
+		}
+	}
+	for k := range it.Headers {
+		it.Headers[k] = "scribbled"
+	}
+	if it.Headers != nil {
+		it.Headers["X-Fid-Injected"] = "1"
+	}
+	for k := range it.Trace {
+		it.Trace[k] = "scribbled"
+	}
+}
+
+// ---------------------------------------------------------------- companion message
+
+const compPrefix = "comp_"
+
+var compHeaders = map[string]string{"X-Fid-K": "k v,1", "Content-Type": "application/x-companion"}
+
+func (j *journey) compPayload(n int) []byte {
+	return []byte(fmt.Sprintf("fid-companion\x00\xff\xfe %s #%d \r\n\x00", j.jid, n))
+}
+
+func isCompanionBody(b []byte) bool { return bytes.HasPrefix(b, []byte("fid-companion\x00\xff\xfe ")) }
+
+// publishCompanion stores a second message on the same route, so that a batch
+// request finds two ready messages (the store then reads them on its
+// multi-row path).
+func (j *journey) publishCompanion() (string, []byte, error) {
+	j.ncomp++
+	id := fmt.Sprintf("%s%s_%d", compPrefix, j.jid, j.ncomp)
+	p := j.compPayload(j.ncomp)
+	item := map[string]any{"id": id, "route": "/in", "payload_b64": base64.StdEncoding.EncodeToString(p), "headers": compHeaders}
+	body, _ := json.Marshal(map[string]any{"items": []any{item}})
+	code, resp := j.admin(http.MethodPost, "/messages/publish", string(body))
+	if code != 200 {
+		return "", nil, fmt.Errorf("companion publish: status %d %s", code, strings.TrimSpace(string(resp)))
+	}
+	return id, p, nil
+}
+
+func (j *journey) cancelCompanion(id string) {
+	_, _ = j.admin(http.MethodPost, "/messages/cancel", fmt.Sprintf(`{"ids":[%q]}`, id))
+}
+
+// kObs describes what was seen of the companion.
+func kObs(want int, got [][]byte, hdrs []map[string]string, sentPayload []byte) map[string]any {
+	k := map[string]any{"want": want, "n": len(got), "pl": PL{D: "", N: 0, Diff: -1}, "wpl": PL{D: "", N: 0, Diff: -1},
+		"h": []HV{}, "sent": HeaderList(compHeaders)}
+	if sentPayload != nil {
+		k["wpl"] = Digest(sentPayload, sentPayload)
+	}
+	if len(got) > 0 {
+		k["pl"] = Digest(got[0], sentPayload)
+		k["h"] = HeaderList(hdrs[0])
+	}
+	return k
+}
+
 func (j *journey) deq(op Op) error {
 	ttl := 30 * time.Second
 	if op.TTL == "short" {
 		ttl = shortTTL
+	}
+	batch := 1
+	if op.B == "alone" || op.B == "pair" {
+		batch = 5
+	}
+	compID := ""
+	var compP []byte
+	if op.B == "pair" {
+		var err error
+		if compID, compP, err = j.publishCompanion(); err != nil {
+			return err
+		}
 	}
 	var d deqResult
 	var err error
@@ -655,44 +750,48 @@ func (j *journey) deq(op Op) error {
 	deadline := time.Now().Add(3 * time.Second)
 	for {
 		tries++
-		d, err = j.deqOnce(op.Ch, ttl)
+		d, err = j.deqOnce(op.Ch, ttl, batch)
 		if err != nil {
 			return err
 		}
-		if d.n > 0 || d.err != "" || d.enc != "" || time.Now().After(deadline) {
+		if len(d.items) > 0 || d.err != "" || time.Now().After(deadline) {
 			break
 		}
 		time.Sleep(3 * time.Millisecond)
 	}
-	if d.n > 0 {
-		j.leaseID = d.lease
-	}
+	var m deqItem
+	n := 0
+	var kp [][]byte
+	var kh []map[string]string
 	mutated := false
-	if d.raw != nil {
-		// a consumer that scribbles over what it was handed must not reach the stored message
-		p := d.raw.Payload
-		for i := range p {
-			p[i] ^= 0xff
-		}
-		if cap(p) > len(p) {
-			p = p[:cap(p)]
-			for i := range p {
-				p[i] = 'X'
+	for _, it := range d.items {
+		if strings.HasPrefix(it.id, compPrefix) {
+			kp = append(kp, it.payload)
+			kh = append(kh, it.headers)
+		} else {
+			if n == 0 {
+				m = it
 			}
+			n++
 		}
-		for k := range d.raw.Headers {
-			d.raw.Headers[k] = "scribbled"
+		if it.raw != nil {
+			scribble(it.raw)
+			mutated = true
 		}
-		if d.raw.Headers != nil {
-			d.raw.Headers["X-Fid-Injected"] = "1"
-		}
-		for k := range d.raw.Trace {
-			d.raw.Trace[k] = "scribbled"
-		}
-		mutated = true
 	}
-	j.emit("Deq", map[string]any{"ch": op.Ch, "ttl": op.TTL},
-		j.obs(d.err, d.n, d.payload, HeaderList(d.headers), map[string]any{"att": d.attempt, "tries": tries, "mutated": mutated, "enc": d.enc}))
+	if n > 0 {
+		j.leaseID = m.lease
+	}
+	if compID != "" {
+		j.cancelCompanion(compID)
+	}
+	want := 0
+	if compID != "" {
+		want = 1
+	}
+	j.emit("Deq", map[string]any{"ch": op.Ch, "ttl": op.TTL, "b": op.B},
+		j.obs(d.err, n, m.payload, HeaderList(m.headers), map[string]any{"att": m.attempt, "tries": tries, "mutated": mutated, "enc": m.enc,
+			"k": kObs(want, kp, kh, compP)}))
 	return nil
 }
 
@@ -778,7 +877,7 @@ func (j *journey) requeue(op Op) error {
 	}
 	j.emit("Requeue", map[string]any{"outcome": op.Outcome}, map[string]any{"n": n, "status": code})
 	if j.in.Mode == "push" {
-		return j.push(op.Outcome, "requeue")
+		return j.push(op.Outcome, "requeue", op.B)
 	}
 	return nil
 }
@@ -808,12 +907,19 @@ func (j *journey) list(op Op) error {
 	} else if err := json.Unmarshal(body, &out); err != nil {
 		errText = "response is not JSON"
 	}
-	n := len(out.Items)
+	n, comps := 0, 0
 	var payload []byte
 	var hdr map[string]string
 	st := ""
-	if n > 0 {
-		it := out.Items[0]
+	for _, it := range out.Items {
+		if strings.HasPrefix(it.ID, compPrefix) {
+			comps++
+			continue
+		}
+		n++
+		if n > 1 {
+			continue
+		}
 		st, hdr = it.State, it.Headers
 		p, err := base64.StdEncoding.DecodeString(it.PayloadB64)
 		if err != nil {
@@ -822,7 +928,7 @@ func (j *journey) list(op Op) error {
 		}
 		payload = p
 	}
-	j.emit("List", map[string]any{"which": op.Which}, j.obs(errText, n, payload, HeaderList(hdr), map[string]any{"st": st, "enc": enc}))
+	j.emit("List", map[string]any{"which": op.Which}, j.obs(errText, n, payload, HeaderList(hdr), map[string]any{"st": st, "enc": enc, "comps": comps}))
 	return nil
 }
 
@@ -838,23 +944,32 @@ func (j *journey) restart() error {
 
 // ---------------------------------------------------------------- push side
 
-func (j *journey) push(outcome, after string) error {
+func (j *journey) push(outcome, after, b string) error {
 	x := j.x
+	compID := ""
+	var compP []byte
+	if b == "pair" {
+		var err error
+		if compID, compP, err = j.publishCompanion(); err != nil {
+			return err
+		}
+	}
 	x.mu.Lock()
 	x.outcome = outcome
 	before := len(x.attempts)
+	kbefore := len(x.companions)
 	x.mu.Unlock()
 	for len(x.arrived) > 0 {
 		<-x.arrived
 	}
-	j.g.open.Store(true)
+	j.g.Open()
 	arrived := false
 	select {
 	case <-x.arrived:
 		arrived = true
 	case <-time.After(8 * time.Second):
 	}
-	j.g.open.Store(false)
+	j.g.Close()
 	errText := ""
 	n := 0
 	var att Attempt
@@ -881,13 +996,45 @@ func (j *journey) push(outcome, after string) error {
 			time.Sleep(300 * time.Microsecond)
 		}
 	}
+	var kp [][]byte
+	var kh []map[string]string
+	want := 0
+	if compID != "" {
+		want = 1
+		// the companion was ready together with the message and is part of the same micro-batch of the dispatcher;
+		// give its delivery a moment, then take it out of the way
+		deadline := time.Now().Add(2 * time.Second)
+		for {
+			x.mu.Lock()
+			got := len(x.companions) > kbefore
+			x.mu.Unlock()
+			if got || errText != "" || time.Now().After(deadline) {
+				break
+			}
+			time.Sleep(500 * time.Microsecond)
+		}
+		j.cancelCompanion(compID)
+		x.mu.Lock()
+		for _, c := range x.companions[kbefore:] {
+			kp = append(kp, c.Body)
+			h := map[string]string{}
+			for k, v := range c.Header {
+				if _, mine := compHeaders[k]; mine {
+					h[k] = strings.Join(v, "\x00")
+				}
+			}
+			kh = append(kh, h)
+		}
+		x.mu.Unlock()
+	}
 	if att.Unexpected {
 		errText = "delivery without a scheduled outcome"
 	}
 	h := HeaderListMulti(att.Header)
 	wh := HeaderListMulti(att.WireHeader)
-	extra := map[string]any{"wh": wh, "wleak": Leaks(j.secrets, headerTexts(wh)...), "method": att.Method, "enc": ""}
-	j.emit("Push", map[string]any{"outcome": outcome, "after": after}, j.obs(errText, n, att.Body, h, extra))
+	extra := map[string]any{"wh": wh, "wleak": Leaks(j.secrets, headerTexts(wh)...), "method": att.Method, "enc": "",
+		"k": kObs(want, kp, kh, compP)}
+	j.emit("Push", map[string]any{"outcome": outcome, "after": after, "b": b}, j.obs(errText, n, att.Body, h, extra))
 	return nil
 }
 
